@@ -7,7 +7,7 @@ T-SUM : np.sum & co. are prefix-sum functions with definitional axioms (theories
 import ast
 import z3
 
-from .values import (Ref, Arr, Closure, BoundMethod, ModuleV, Opaque, Unsupported, PyRaise,
+from .values import (Opt, Ref, Arr, Closure, BoundMethod, ModuleV, Opaque, Unsupported, PyRaise,
                      is_sym, is_conc, to_z3, fresh_scalar, fresh_arr, kind_of, is_int_like,
                      is_real_like, is_bool_like, fresh_name)
 from . import theories as T
@@ -196,6 +196,14 @@ def binop(I, st, op, l, r, node):
         if isinstance(op, (ast.Add, ast.Mod)):
             return "<str>"
         raise Unsupported("string operator")
+    if isinstance(l, Opt) or isinstance(r, Opt):
+        # None-or-value operand: the None case is a TypeError (obligation), then the value is used
+        for o in (l, r):
+            if isinstance(o, Opt):
+                I.oblige(f"operand-is-not-None@{getattr(node, 'lineno', '?')}", st, o.flag, node, note="None used in arithmetic")
+                st.assume(o.flag)
+        l = l.value if isinstance(l, Opt) else l
+        r = r.value if isinstance(r, Opt) else r
     if l is None or r is None:
         raise PyRaise("TypeError", "unsupported operand type(s): NoneType")
     if isinstance(l, tuple) and isinstance(r, tuple) and isinstance(op, ast.Add):
@@ -240,6 +248,12 @@ def _bor(a, b):
 
 
 def s_cmp(op, a, b):
+    if isinstance(op, (ast.Is, ast.IsNot)) and (isinstance(a, Opt) or isinstance(b, Opt)):
+        o, other = (a, b) if isinstance(a, Opt) else (b, a)
+        if other is not None:
+            raise Unsupported("`is` between an optional value and a non-None value")
+        isnone = z3.Not(o.flag)
+        return isnone if isinstance(op, ast.Is) else o.flag
     if isinstance(op, (ast.Is, ast.IsNot)):
         if a is None or b is None:
             same = (a is None and b is None)
@@ -406,9 +420,10 @@ def arr_getitem(I, st, A, idx, node):
         idx = (idx,)
     if idx and isinstance(idx[0], tuple) and idx[0] == ("ellipsis",):
         idx = tuple([("slice", None, None, None)] * (A.ndim - (len(idx) - 1))) + idx[1:]
-    # np.newaxis handling: a[:, None] / a[None, :]
+    # np.newaxis handling: a[:, None] / a[None, :] / a[:, k, None]
     if any(x is None for x in idx if not is_sym(x)):
-        shape, pos = [], []
+        shape, pos = [], []      # pos[k]: ('new',) | ('free', src) ; fixed source dims are recorded separately
+        fixedn = {}
         src = 0
         for x in idx:
             if not is_sym(x) and x is None:
@@ -418,9 +433,25 @@ def arr_getitem(I, st, A, idx, node):
                 shape.append(A.shape[src])
                 pos.append(src)
                 src += 1
+            elif _is_slice(x) or is_arr(x) or isinstance(x, Ref):
+                raise Unsupported("newaxis mixed with partial slices / fancy indices")
             else:
-                raise Unsupported("newaxis mixed with indices")
-        return st.new_arr(Arr(tuple(shape), lambda *i: A.at(*[i[k] for k, p in enumerate(pos) if p is not None]), A.sort))
+                fixedn[src] = norm_index(I, st, x, A.shape[src], node)
+                src += 1
+        while src < A.ndim:
+            shape.append(A.shape[src])
+            pos.append(src)
+            src += 1
+
+        def fn_na(*i, pos=pos, fixedn=fixedn):
+            full = [None] * A.ndim
+            for k, p_ in enumerate(pos):
+                if p_ is not None:
+                    full[p_] = i[k]
+            for d_, v_ in fixedn.items():
+                full[d_] = v_
+            return A.at(*full)
+        return st.new_arr(Arr(tuple(shape), fn_na, A.sort))
     if len(idx) > A.ndim:
         raise PyRaise("IndexError", "too many indices for array")
     idx = tuple(idx) + tuple([("slice", None, None, None)] * (A.ndim - len(idx)))
@@ -936,7 +967,7 @@ def b_enumerate(I, st, args, kw, node):
     if isinstance(v, Ref) and v.kind == "list":
         c = st.cell(v)
         if "__symlen__" in c:
-            raise Unsupported("enumerate over symbolic list")
+            return Opaque("enumerate", seq=v)
         v = c["__list__"]
     if isinstance(v, (list, tuple)):
         return tuple(enumerate(v))
@@ -1392,8 +1423,15 @@ def np_sum(I, st, args, kw, node):
         return args[0]
     if a.ndim == 1 and axis in (None, 0):
         return T.sums.total(st, a)
-    if a.ndim == 2 and axis in (0, 1):
-        return st.new_arr(T.sums.axis_sum(st, a, axis))
+    if a.ndim == 2 and axis in (0, 1, -1):
+        axis = 1 if axis == -1 else axis
+        r = T.sums.axis_sum(st, a, axis)
+        if kw.get("keepdims"):
+            shp = (r.shape[0], 1) if axis == 1 else (1, r.shape[0])
+            return st.new_arr(Arr(shp, (lambda i, j, r=r: r.at(i)) if axis == 1 else (lambda i, j, r=r: r.at(j)), "real", prov=("keepdims", r, axis)))
+        return st.new_arr(r)
+    if a.ndim == 2 and axis is None:
+        return T.sums.total(st, T.sums.axis_sum(st, a, 1))
     if a.ndim == 0:
         return a.at()
     raise Unsupported("np.sum of n-d array")
@@ -1440,6 +1478,18 @@ def np_all(I, st, args, kw, node):
             return z3.ForAll([q], z3.Implies(z3.And(q >= 0, q < to_z3(a.shape[1], "int")), to_z3(a.at(i, q))))
         return st.new_arr(Arr((a.shape[0],), fn, "bool"))
     raise Unsupported("np.all")
+
+
+@ext("numpy.dot", "np.dot of two 2-d arrays: (A.B)[a,b] = sum_i A[a,i] B[i,b] (T-SUM three-index prefix sums)")
+def np_dot(I, st, args, kw, node):
+    A, B = arr_of(st, args[0]), arr_of(st, args[1])
+    if A is None or B is None or A.ndim != 2 or B.ndim != 2:
+        h = I.ext.get("numpy.matmul")
+        if h is not None:
+            return h(I, st, args, kw, node)
+        raise Unsupported("np.dot of non-2-d operands")
+    I.oblige(f"dot-inner-dimensions-agree@{node.lineno}", st, to_z3(A.shape[1], "int") == to_z3(B.shape[0], "int"), node)
+    return st.new_arr(T.sums.dot(st, A, B))
 
 
 @ext("numpy.logaddexp.reduce", "np.logaddexp.reduce(v) = log(sum(exp(v)))")
